@@ -36,6 +36,7 @@ def objOf (j : Json) : Except String Obj := do
   | "smeth" => pure (.smeth (← jnat j "func"))
   | "cmeth" => pure (.cmeth (← jnat j "func"))
   | "module" => pure (.module (← jnat j "dict"))
+  | "cell" => pure (.cell (← jnat j "content"))
   | "atom" => pure (.atom (toStr (← jstr j "ty")) (toStr (← jstr j "val")))
   | _ => throw s!"unknown object kind {k}"
 
@@ -62,12 +63,19 @@ def objJ : Obj → Json
   | .smeth f => Json.mkObj [("k", "smeth"), ("func", natJ f)]
   | .cmeth f => Json.mkObj [("k", "cmeth"), ("func", natJ f)]
   | .module d => Json.mkObj [("k", "module"), ("dict", natJ d)]
+  | .cell c => Json.mkObj [("k", "cell"), ("content", natJ c)]
   | .atom t v => Json.mkObj [("k", "atom"), ("ty", strJ t), ("val", strJ v)]
 
 def errJ : Err → Json
   | .fuel => "fuel" | .stuck => "stuck" | .keyError => "KeyError" | .assertion => "AssertionError"
   | .typeError => "TypeError" | .attributeError => "AttributeError" | .syntaxError => "SyntaxError"
   | .execFailed i => Json.mkObj [("execFailed", natJ i)]
+
+def fixesOf (j : Json) : Fixes :=
+  let f (k : String) : Bool := match j.getObjVal? "fixes" with
+    | .ok v => (v.getObjValAs? Bool k).toOption.getD false
+    | .error _ => false
+  { d18 := f "d18", d41 := f "d41", d44 := f "d44", d45 := f "d45" }
 
 def handle (j : Json) : Except String Json := do
   let op ← jstr j "op"
@@ -81,7 +89,7 @@ def handle (j : Json) : Except String Json := do
       | none => ExecOutcome.ok objs
     let inp : ReloadIn := { name := toStr (← jstr j "name"), module := ← jnat j "module",
                             compileOk := ← jbool j "compileOk", outcome := outcome,
-                            mtime := ← objOf (← jobj j "mtime"), fuel := ← jnat j "fuel" }
+                            mtime := ← objOf (← jobj j "mtime"), fuel := ← jnat j "fuel", fx := fixesOf j }
     let (w, r) := xreload { heap := heap, sysmods := sysmods } inp
     let res := match r with
       | .ok m => Json.mkObj [("ok", natJ m)]
@@ -90,7 +98,7 @@ def handle (j : Json) : Except String Json := do
   | "livepatch" =>
     let heap ← (← jarr j "heap").toList.mapM objOf
     let sysmods ← pairsOf (← jarr j "sysmods")
-    let cx : Ctx := { modname := optStr j "modname", sysmods := sysmods }
+    let cx : Ctx := { modname := optStr j "modname", sysmods := sysmods, fx := fixesOf j }
     match livepatch cx (← jnat j "fuel") heap (← jnat j "old") (← jnat j "new") with
     | .ok (r, h) => pure (Json.mkObj [("result", Json.mkObj [("ok", natJ r)]), ("heap", Json.arr (h.map objJ).toArray)])
     | .error e => pure (Json.mkObj [("result", Json.mkObj [("err", errJ e)])])
